@@ -255,7 +255,7 @@ pub fn corpus(thorough: bool) -> (Vec<Vec<u8>>, usize) {
     ] {
         bss.push(s.as_bytes().to_vec());
     }
-    let tails: [&[u8]; 8] = [b"", b",", b",name", b",a:b,c", b":", b"@", b"\xff", b"A"];
+    let tails: [&[u8]; 12] = [b"", b",", b",name", b",a:b,c", b":", b"@", b"\xff", b"A", b"\n", b"\r\n", b" ", b"\t"];
     let small: Vec<Vec<u8>> = vec![
         b"".to_vec(),
         b"A".to_vec(),
@@ -299,6 +299,34 @@ pub fn corpus(thorough: bool) -> (Vec<Vec<u8>>, usize) {
             }
         }
     }
+    // spellings that are a valid block size modulo 2^32 (wrap-around of the accumulator), modulo 2^64, and
+    // valid sizes with a digit appended / prepended
+    for n in 0..31u32 {
+        let v = 3u128 << n;
+        for k in [1u128, 2, 3, 5, 10] {
+            texts.push(mk(format!("{}", v + (k << 32)).as_bytes(), b"AB", b"CD", b""));
+        }
+        texts.push(mk(format!("{}", v + (1u128 << 64)).as_bytes(), b"AB", b"CD", b""));
+        texts.push(mk(format!("{}0", v).as_bytes(), b"AB", b"CD", b""));
+        texts.push(mk(format!("1{}", v).as_bytes(), b"AB", b"CD", b""));
+        texts.push(mk(format!("0{}", v).as_bytes(), b"AB", b"CD", b""));
+    }
+    // a run of every one of the 64 symbols at the start, in the middle and at the end of either block hash
+    for sym in 0..64u8 {
+        let c = refmodel::B64[sym as usize];
+        for k in [1usize, 2, 3, 4, 5, 9] {
+            let run = vec![c; k];
+            let mut mid = b"Bc".to_vec();
+            mid.extend(&run);
+            mid.extend(b"dE");
+            let mut end = b"Bcd".to_vec();
+            end.extend(&run);
+            for bh in [&run, &mid, &end] {
+                texts.push(mk(b"3", bh, b"", b""));
+                texts.push(mk(b"6", b"x", bh, b",n"));
+            }
+        }
+    }
     // every valid block size spelling, with small contents and every tail
     for bs in &valid_bs {
         for t in tails.iter() {
@@ -324,7 +352,7 @@ pub fn corpus(thorough: bool) -> (Vec<Vec<u8>>, usize) {
     let nseeds = if thorough { 2000 } else { 400 };
     // (texts with very long runs are not edit seeds: one edit per offset of a 64 KiB text is not a small deviation family)
     let seeds: Vec<Vec<u8>> = texts.iter().filter(|t| t.len() <= 320).step_by((nbase / nseeds).max(1)).cloned().collect();
-    let bytes = [b':', b',', b'A', b'/', b'0', b'9', b'@', 0u8, 0x80, 0xff];
+    let bytes = [b':', b',', b'A', b'/', b'0', b'9', b'@', 0u8, 0x80, 0xff, b'\n', b'\r', b' ', b'='];
     let mut edits: Vec<Vec<u8>> = vec![];
     let edit1 = |s: &Vec<u8>, out: &mut Vec<Vec<u8>>| {
         for pos in 0..=s.len() {
@@ -426,7 +454,7 @@ pub fn run(ctx: &Ctx) -> Report {
     rep.set("exhaustive", true);
     rep.set(
         "rule",
-        "texts = products of block-size spellings (31 valid; 0, 03, 4, 16, 2^32-1, 2^32, 80 digits, empty, signs, spaces) x block-hash texts (a run of length l at position p with tail q: raw / normalised lengths below, at, above the capacities 32 and 64; two-run overflow texts) x tails (none, comma, name, colon, '@', 0xff, 'A'); deviation 1 = every single-byte insert/replace/delete/truncate at every offset of strided seeds with bytes {: , A / 0 9 @ 00 80 ff}; deviation 2 (thorough) = all pairs of edits of five short seeds.  Texts are de-duplicated (distinct_nontrivial counts distinct texts); each is parsed into all six types through from_bytes, from_bytes_with_last_index (index preset 0 and usize::MAX) and str::parse.  evaluations counts parses.",
+        "texts = products of block-size spellings (31 valid; 0, 03, 4, 16, 2^32-1, 2^32, every valid size + k*2^32 and + 2^64, with a digit appended / prepended, 80 digits, empty, signs, spaces) x block-hash texts (a run of length l at position p with tail q: raw / normalised lengths below, at, above the capacities 32 and 64; two-run overflow texts) x tails (none, comma, name, colon, '@', 0xff, 'A', LF, CRLF, blank, tab); runs of 1..9 of every one of the 64 symbols at the start / middle / end of either block hash; deviation 1 = every single-byte insert/replace/delete/truncate at every offset of strided seeds with bytes {: , A / 0 9 @ = 00 80 ff LF CR blank}; deviation 2 (thorough) = all pairs of edits of five short seeds.  Texts are de-duplicated (distinct_nontrivial counts distinct texts); each is parsed into all six types through from_bytes, from_bytes_with_last_index (index preset 0 and usize::MAX) and str::parse.  evaluations counts parses.",
     );
     rep.assume("the error *kind* only has to be one of the error conditions the offending field exhibits (a field can be both too long and wrongly terminated); the offset is a hint and is not checked");
     rep.assume("under the strict parser a field of exactly N symbols followed by a non-terminator may be reported as too long (that scanner stops after N symbols)");
